@@ -67,7 +67,19 @@ pub fn generate(seed: u64, tier: &str, sink: &mut Sink) {
                 continue;
             }
             let ns = vec![size; nreads];
-            let case = RespCase { method: "GET".into(), max_headers: 100, segs, reads: Reads::Sizes(ns) };
+            // one case in six looks at the body through the BufRead view (fill_buf + consume of up to `size`
+            // bytes): what has arrived is shown without waiting, too
+            let reads = if rng.chance(1, 6) {
+                let mut ops = vec![];
+                for _ in 0..nreads {
+                    ops.push(crate::resp::BOp::Fill);
+                    ops.push(crate::resp::BOp::ConsumeUpTo(size));
+                }
+                Reads::BufOps(ops)
+            } else {
+                Reads::Sizes(ns)
+            };
+            let case = RespCase { method: "GET".into(), max_headers: 100, segs, reads };
             let out = run_resp(&case);
             let tag = format!("{}", spec_.framing_name());
             let o: Result<(), (String, String)> = (|| {
@@ -110,6 +122,7 @@ pub fn generate(seed: u64, tier: &str, sink: &mut Sink) {
                     format!("framing={}", spec_.framing_name()),
                     format!("seg={}", segname),
                     format!("readsize={}", size),
+                    format!("view={}", if matches!(case.reads, Reads::BufOps(_)) { "bufread" } else { "read" }),
                     format!("pause={}", if p == 0 { "after-head" } else if p == body.len() { "after-body" } else { "in-body" }),
                     if must == 0 { "trivial".into() } else { "nontrivial".into() },
                 ],
